@@ -26,7 +26,7 @@ META = {
                    "families (int, real, mixed int/real); construction is compared with set()/dict() semantics and one "
                    "arbitrary operation from every strictly ascending state is compared with a sorted-list model and "
                    "the representation invariant (inductive step).",
-    "bounds": {"quick": {"L": 4}, "thorough": {"L": 5}},
+    "bounds": {"quick": {"L": 5}, "thorough": {"L": 5}},
     "outside_bounds": ["collections larger than L", "NaN / infinities (cannot be ordered; SortedMap rejects NaN)",
                        "keys other than int/float apart from the three foreign probes 'x', None, (1,)"],
     "assumptions": ["floats are modelled as finite reals (exact for the comparisons this code performs)",
@@ -469,7 +469,7 @@ MAP_OPS = ["setitem", "getitem", "delitem", "pop", "setdefault", "update", "in",
 
 
 def jobs(tier):
-    L = 4 if tier == "quick" else 5
+    L = 5
     out = []
     T = 900
     for fam in ("int", "real", "mixed"):
